@@ -42,7 +42,12 @@ pub fn mkreq(kind: &str, a: u64, b: u64, seq: u64) -> Result<ClientRequest, Stri
     } else {
         format!("d{}\u{2}g{}\u{2}t{}", a % 4, a / 4 % 2, a / 8 % 2)
     };
-    let content = if b % 7 == 6 { "x".repeat(3000 + b as usize) } else { format!("content-{}", b) };
+    // `cfgbig`: a configuration of several MiB (the default limit is 10 MiB): its log record is larger than the steps in
+    // which a log file is pre-allocated
+    // `cfgempty`: a committed publish of blank content (the HTTP handlers refuse it, gRPC publish / console / import do not
+    // look): every path must treat it alike
+    let content = if kind == "cfgempty" { String::new() } else if kind == "cfgbig" { "y".repeat(3_600_000 + b as usize) } else if b % 7 == 6 { "x".repeat(3000 + b as usize) } else { format!("content-{}", b) };
+    let kind = if kind == "cfgbig" || kind == "cfgempty" { "cfgset" } else { kind };
     let tbl = ["T_USER", "T_CACHE"][(a % 2) as usize];
     let cty = ["yaml", "json"][(b % 2) as usize];
     let v = match kind {
